@@ -105,6 +105,9 @@ class BaseClient:
 
         if isinstance(msg, message.DelProperty):
             device = self.get_device(msg.device)
+            if device and not msg.name:
+                del self.devices[msg.device]
+                device = None
 
         if device:
             device.process_message(msg)
